@@ -556,7 +556,7 @@ p2_case!(p2c_opt_exit, "opt", "exit", false, 7, "");
 #[kani::proof]
 #[kani::unwind(9)]
 fn c09_twin() {
-    let inp = any_args(3);
+    let inp = any_args(1);
     let text = unsafe { core::str::from_utf8_unchecked(&inp.raw[..inp.n]) };
     let cmd = RawCommand::new("led", ArgList::new(Tokens::from_raw(text, inp.is_empty)));
     assert!(P1::parse(cmd).is_err(), "twin: must be reported as FAILED");
